@@ -203,10 +203,22 @@ package gortsplib
 //@   ensures[C20] sri(u.RawQuery, "/trackID=") < 0 && sri(u.Path, "/trackID=") >= 0 ==> err == nil && ret1 == u.RawQuery && len(ret0) == sri(u.Path, "/trackID=")
 //@   modifies fresh
 
+// A numeric track id selects the media at that index of the stream's description (atou: the
+// number a decimal text denotes, assumed inverse of itoa in specs/lib.spec).
 //@ func findMediaByTrackID
 //@   opt safety-tag=C20
 //@   requires trackID != "" || len(medias) >= 1
+//@   ensures[C20] trackID != "" && ret != nil ==> 0 <= atou(trackID, 10) && atou(trackID, 10) < len(medias) && ret == medias[atou(trackID, 10)]
+//@   ensures[C20] trackID == "" ==> ret == medias[0]
 //@   modifies nothing
+
+// The control attribute advertised for a media is "trackID=" followed by the decimal INDEX OF THAT
+// MEDIA IN THE STREAM'S DESCRIPTION - the list findMediaByTrackID indexes on SETUP - and not its
+// position in the (possibly filtered, back channels left out) list sent to the client. Together
+// with the contract above: each SETUP reaches the media it was issued for.
+//@ func (st *ServerStream) descForDescribe
+//@   assert[C20]@store:Control exists k :: 0 <= k && k < len(st.Desc.Medias) && st.Desc.Medias[k] == medi && arg(0) == "trackID=" + itoa(k, 10)
+//@   modifies *
 
 // A SETUP while recording is matched to a media only if the request URL EQUALS the media's
 // absolute control URL or one of the two URLs the server itself builds from path, query and
@@ -242,3 +254,17 @@ package gortsplib
 //@   loop 1
 //@     invariant fresh(ssrcs) && fresh(startROCs) && ref(ssrcs) != ref(startROCs) && len(ssrcs) == len(mikeyMsg.Header.CSIDMapInfo) && len(startROCs) == len(mikeyMsg.Header.CSIDMapInfo)
 //@     invariant forall j :: 0 <= j && j < _i ==> ssrcs[j] == mikeyMsg.Header.CSIDMapInfo[j].SSRC && startROCs[j] == mikeyMsg.Header.CSIDMapInfo[j].ROC
+
+// The play-side readers hand incoming RTP to the formats' receivers, which exist only for medias
+// the client reads from: they are never installed for a back channel, neither over UDP nor over
+// interleaved TCP, so a server that injects packets on a back channel finds no receiver to crash.
+//@ func (cm *clientMedia) initialize
+//@   assert[C12]@mapupdate isfn(arg(1), "readPacketRTPTCPPlay") || isfn(arg(1), "readPacketRTCPTCPPlay") ==> !cm.media.IsBackChannel
+//@   assert[C12]@store:readFunc isfn(arg(0), "readPacketRTPUDPPlay") || isfn(arg(0), "readPacketRTCPUDPPlay") ==> !cm.media.IsBackChannel
+//@   modifies *
+
+// Building the key-management message of a media only reads the SRTP context and writes new
+// objects (frame used where descForDescribe calls it inside its loop over the medias).
+//@ func contextToMikey
+//@   opt frame-tag=C20
+//@   modifies fresh
